@@ -311,7 +311,7 @@ def run_cases(cases, outdir, with_model=True, release=False, timeout=120):
 
 # ------------------------------------------------------------------ trace parsing
 class Step:
-    __slots__ = ('op', 'kv', 'res', 'fields', 'outs', 'g', 's', 'bufs', 'allocs', 'galloc', 'gv')
+    __slots__ = ('op', 'kv', 'res', 'fields', 'outs', 'g', 's', 'bufs', 'allocs', 'galloc', 'gv', 'al')
 
     def __init__(self):
         self.op = None
@@ -325,6 +325,7 @@ class Step:
         self.allocs = None
         self.galloc = None
         self.gv = None
+        self.al = False
 
 
 def parse_kv(line):
@@ -380,6 +381,8 @@ def parse_trace(trace_path, hist_path):
             cur.g = [int(x) for x in l.split(' ')[1:]]
         elif l.startswith('GV MISMATCH'):
             cur.gv = [int(x) for x in l.split(' ')[2:]]
+        elif l.startswith('AL MISMATCH'):
+            cur.al = True
         elif l.startswith('S '):
             cur.s = l.split(' ')[1:]
         elif l.startswith('B '):
